@@ -56,6 +56,8 @@ static uint64_t g_prog_index;
 static void build_program(prog_t *p, rng_t *r, char *feat, size_t featn) {
     prog_add_source(p, 1, "crash-src");
     int nsig = (int) rng_range(r, 1, 3);
+    int no_fsr = (g_prog_index % 6) == 2;    /* a file without any FSR signal: only signal 0 / VSR annotations and user data */
+    if (no_fsr) nsig = 0;
     oplist_t lists[7]; memset(lists, 0, sizeof(lists));
     size_t nl = 0, fn = 0;
     feat[0] = 0;
@@ -112,6 +114,7 @@ static void build_program(prog_t *p, rng_t *r, char *feat, size_t featn) {
         ++nl;
     }
     int nanno = (int) rng_range(r, 0, 12); int64_t ts = 0;
+    if (no_fsr) nanno = (int) rng_range(r, 101, 260);   /* more than signal 0's decimation of 100: index chunks exist */
     for (int i = 0; i < nanno; ++i) { op_t *a = ol_add(&lists[nl], OP_ANNO); a->id = 0; ts += (int64_t) rng_below(r, 3); a->ts = ts; a->y = NAN; a->atype = 1; a->stype = JLS_STORAGE_TYPE_STRING; a->dsize = (uint32_t) rng_range(r, 1, 20); a->dseed = rng_u64(r); }
     ++nl;
     int nuser = (int) rng_range(r, 0, 4);
